@@ -168,7 +168,7 @@ def _sg(x):
 
 
 def _state(a):
-    return (repr(a._deg), repr(a._tol))
+    return (repr(a()), repr(a._tol))
 
 
 def _float_inputs(rng, n):
@@ -284,7 +284,7 @@ def _operands(rng):
 
 def _val(o):
     from pymeeus.Angle import Angle
-    return o._deg if isinstance(o, Angle) else o
+    return o() if isinstance(o, Angle) else o
 
 
 def gen_ops(seed, n, shard):
@@ -308,7 +308,7 @@ def gen_ops(seed, n, shard):
             base = op[1:]
         refl = op in ("radd", "rsub", "rmul", "rdiv", "rmod", "rpow")
         if refl and bk == "A":
-            bk, b = "F", float(b._deg)          # reflected forms need a plain number on the left
+            bk, b = "F", float(b())          # reflected forms need a plain number on the left
         if rng.random() < 0.08 and base in ("div", "mod"):
             # divisor exactly zero
             if refl:
@@ -326,10 +326,10 @@ def gen_ops(seed, n, shard):
             else:
                 b = rng.choice([n_exp, float(n_exp), Angle(float(n_exp))])
                 bk = "A" if isinstance(b, Angle) else ("I" if isinstance(b, int) else "F")
-                if abs(a._deg) > 30:
-                    a = Angle(a._deg % 30)
+                if abs(a()) > 30:
+                    a = Angle(a() % 30)
         # mathematical operands
-        x, y = (_val(b), a._deg) if refl else (a._deg, _val(b))
+        x, y = (_val(b), a()) if refl else (a(), _val(b))
         if base == "mod" and not (y > 0 or y == 0):
             continue
         if base in ("div", "mod") and y != 0 and abs(y) < 1e-3:
@@ -359,7 +359,7 @@ def gen_ops(seed, n, shard):
                 ev["y"] = fx(0)
             ev["oc"] = "ok"
             ev["rty"] = 1 if isinstance(res, Angle) else 0
-            rv = res._deg if isinstance(res, Angle) else float("nan")
+            rv = res() if isinstance(res, Angle) else float("nan")
             ev["r"], ev["rs"], ev["rf"] = fx(rv), _sg(rv), rv
         except Exception as ex:
             ev["oc"], ev["rty"], ev["r"], ev["rs"] = _oc(ex), 0, fx(0), 0
@@ -375,8 +375,8 @@ def gen_ops(seed, n, shard):
     # to_positive and the views
     for x in _float_inputs(rng, max(50, n // 10)) + [-1e-20, -1e-17, -5e-324, -359.99999999999994, -360.0 + 1e-13]:
         a = Angle(x)
-        v0 = a._deg
+        v0 = a()
         r = a.to_positive()
-        yield {"k": "pos", "x": fx(v0), "xf": v0, "r": fx(a._deg), "rs": _sg(a._deg), "rf": a._deg, "self": 1 if r is a else 0}
+        yield {"k": "pos", "x": fx(v0), "xf": v0, "r": fx(a()), "rs": _sg(a()), "rf": a(), "self": 1 if r is a else 0}
         b = Angle(x)
-        yield {"k": "view", "v": fx(b._deg), "rad": fx(b.rad()), "ra": fx(b.get_ra()), "xf": b._deg}
+        yield {"k": "view", "v": fx(b()), "rad": fx(b.rad()), "ra": fx(b.get_ra()), "xf": b()}
